@@ -199,18 +199,17 @@ fn run_single(
             if loc.starts_with("src/") {
                 return (Outcome::Foreign(format!("HARNESS-panic:{loc}:{msg}")), totals);
             }
-            if prop == P::C10 {
-                (
-                    Outcome::Violation(Violation {
-                        property: prop_id,
-                        class: format!("panic:{loc}"),
-                        message: format!("the client panicked ({msg}) at {loc}"),
-                    }),
-                    totals,
-                )
-            } else {
-                (Outcome::Foreign(format!("panic:{loc}")), totals)
-            }
+            // C10 names panics; for the others a client that panics has dropped
+            // what it held (C02, C11), cannot resume (C07) and neither pings
+            // nor reports (C18)
+            (
+                Outcome::Violation(Violation {
+                    property: prop_id,
+                    class: format!("panic:{loc}"),
+                    message: format!("the client panicked ({msg}) at {loc}"),
+                }),
+                totals,
+            )
         }
     }
 }
